@@ -130,10 +130,15 @@ def check_formula(pe, acc, C, c, T, pattern, kind, name, sp):
     acc.ok((T, pattern, kind, name), (0 in pattern) or kind not in ('cosh', 'exp'), name.split(':')[0])
 
 
-def check_root_variant(pe, acc, C, c, T, pattern, kind, var):
-    """cosh / periodic / sinh: substitution oracle."""
+def check_root_variant(pe, acc, C, c, T, pattern, kind, var, scale=1.0):
+    """cosh / periodic / sinh: substitution oracle.  scale: the correlator is multiplied by this factor first (the effective mass depends on
+    ratios only, a correlator of magnitude 1e-13 has the same masses and the same defined set)."""
     name = 'm_eff:' + var
     sub = {'kind': 'one', 'T': T, 'pattern': list(pattern), 'data': kind, 'variant': name}
+    if scale != 1.0:
+        sub['scale'] = scale
+        c = [None if x is None else x * scale for x in c]
+        C = pe.Corr([None if x is None else x for x in c])
     func = np.sinh if var == 'sinh' else np.cosh
     h = T / 2
     exp = {}     # t -> None | ('root', ratio) | ('marginal', ratio) | ('copy', predecessor)
@@ -161,7 +166,7 @@ def check_root_variant(pe, acc, C, c, T, pattern, kind, var):
             R = C.m_eff(variant=var, guess=M0 * 1.2)
     except Exception as e:
         if not D:
-            acc.ok((T, pattern, kind, name), False, 'undefined-everywhere-refused')
+            acc.ok((T, pattern, kind, name, scale), False, 'undefined-everywhere-refused')
         else:
             acc.fail('%s:raised' % name, sub, '%s on pattern %s (%s data) raised %s: %s although timeslices %s are defined' % (name, pattern, kind, type(e).__name__, e, D))
         return
@@ -211,7 +216,7 @@ def check_root_variant(pe, acc, C, c, T, pattern, kind, var):
         acc.fail('%s:no-real-solution-defined' % name, sub, '%s on pattern %s (%s data): timeslice(s) %s are defined although C(t)/C(t+1) = %s lies outside the range of the function ratio (no real solution); returned masses %s' % (
             name, pattern, kind, [x[0] for x in nosol], ['%.4g' % x[1] for x in nosol], ['%.4g' % x[2] for x in nosol]))
         return
-    acc.ok((T, pattern, kind, name), (0 in pattern) or kind not in ('cosh', 'exp'), 'm_eff-root')
+    acc.ok((T, pattern, kind, name, scale), (0 in pattern) or kind not in ('cosh', 'exp'), 'm_eff-root' if scale == 1.0 else 'm_eff-root-scaled')
 
 
 def _solvable(var, t, T, ratio):
@@ -277,6 +282,7 @@ def run_case(case):
                             if kind != 'exp':
                                 continue
                         check_root_variant(pe, acc, C, c, T, pattern, kind, var)
+                        check_root_variant(pe, acc, C, c, T, pattern, kind, var, scale=1e-13)
             acc.sample({'kind': 'formulas', 'T': T, 'pattern': case['patterns'][-1], 'data': case['data'], 'variants': list(S) + ['m_eff:cosh', 'm_eff:periodic', 'm_eff:sinh']})
         elif case['kind'] == 'one':
             S = spec(pe)
@@ -286,7 +292,7 @@ def run_case(case):
             if name in S:
                 check_formula(pe, acc, C, c, T, pattern, kind, name, S[name])
             else:
-                check_root_variant(pe, acc, C, c, T, pattern, kind, name.split(':')[1])
+                check_root_variant(pe, acc, C, c, T, pattern, kind, name.split(':')[1], scale=case.get('scale', 1.0))
         elif case['kind'] == 'plateau':
             run_plateau(pe, acc, case)
     return acc
@@ -351,6 +357,28 @@ def run_plateau(pe, acc, case):
                     acc.fail('plateau:fit:weights-of-the-carried-errors', sub, 'errors from gamma_method(%s), pattern %s: %s' % (params, pattern, bad))
                 else:
                     acc.ok(('plw', T, pattern, repr(sorted(params.items()))), True, 'plateau-fit')
+        # the same correlator in other units: the plateau is the order-one plateau times the factor
+        if all(pattern):
+            for psc in (1e-9, 1e4, 1e9):
+                Cs = pe.Corr([x[0] * psc for x in C.content])
+                Cs.gamma_method()
+                cs = [x[0] for x in Cs.content]
+                for method in ('fit', 'avg'):
+                    sub = dict(case, pattern=list(pattern), scale=psc, method=method)
+                    try:
+                        r = Cs.plateau([0, T - 1], method=method)
+                        if method == 'avg':
+                            e = sum(cs) / T
+                        else:
+                            w = np.array([1 / x.dvalue ** 2 for x in cs])
+                            e = sum((wi / w.sum()) * x for wi, x in zip(w, cs))
+                        bad = same_entry(r, e, pe, 1e-12 if method == 'avg' else 1e-7)
+                    except Exception as ex:
+                        bad = 'raised %s: %s' % (type(ex).__name__, ex)
+                    if bad:
+                        acc.fail('plateau:%s:magnitude=%g' % (method, psc), sub, 'plateau(%s) of a correlator of magnitude %g (T=%d): %s' % (method, psc, T, bad))
+                    else:
+                        acc.ok(('pls', T, psc, method), True, 'plateau-scaled')
         # a stored range inside 0..T-1 is accepted and used; any other is refused, when it is stored or when it is used
         if all(pattern):
             for pr in ([0, T - 1], [T - 1, T - 1], [0, T], [T, T], [T - 1, T], [2, 1], [-1, 2]):
